@@ -72,6 +72,10 @@ def specP : P String := do
       match daysToWeekday sv d with
       | none => pure (okB (n == -1))
       | some m => pure (okB (n == m && 1 ≤ n && n ≤ 7 && (sv + n) % 7 == d))
+  | "lemax" => do
+      -- t = max a b
+      let a ← int; let b ← int; let t ← int
+      pure (okB (t == (if a ≤ b then b else a)))
   | "eq" => do
       let a ← int; let b ← int
       pure (okB (a == b))
